@@ -48,6 +48,62 @@ def py_binop(op: str, a: str, b: str):
     return {"float"} if "float" in (ai, bi) else {"int"}
 
 
+def rule_hoist_order(r, pm):
+    """the hoisted declaration is typed from the scope's label table: at every `_make_promotion_decls(names, ctx, ...)` the
+    labels of those names have already been published to ctx['var_types'] (by _promote_branch_decls, or by the loop arm's
+    own copy loop that precedes the call)"""
+    psl = pm.func("_parse_simple_lines")
+    n_sites = 0
+    for c in walk_local(psl):
+        if not (isinstance(c, ast.Call) and call_name(c) == "_make_promotion_decls" and c.args):
+            continue
+        n_sites += 1
+        names = norm(c.args[0])
+        stmt = c
+        while not isinstance(pm.parent.get(stmt), (ast.If, ast.For, ast.While, ast.FunctionDef, ast.Try, ast.With)) or stmt not in _body_lists(pm.parent.get(stmt)):
+            stmt = pm.parent.get(stmt)
+            if stmt is None:
+                break
+        ok = False
+        why = "no publication of the labels found before the call"
+        if stmt is not None:
+            blk = next(b for b in _blocks(pm.parent[stmt]) if stmt in b)
+            before = blk[:blk.index(stmt)]
+            for st in before:
+                if isinstance(st, ast.For) and norm(st.iter) == names and any(isinstance(x, ast.Assign) and isinstance(x.targets[0], ast.Subscript) and norm(x.targets[0].value) == "var_types" and "child_types.get(" in norm(x.value) for x in st.body):
+                    ok = True
+            # or the names come from _promote_branch_decls, which publishes them itself
+            for anc in [stmt] + list(pm.ancestors(stmt)):
+                par = pm.parent.get(anc)
+                if par is None:
+                    break
+                for b in _blocks(par):
+                    if anc in b:
+                        for st in b[:b.index(anc)]:
+                            if isinstance(st, ast.Assign) and norm(st.targets[0]) == names and isinstance(st.value, ast.Call) and call_name(st.value) == "_promote_branch_decls":
+                                ok = True
+                if isinstance(par, ast.FunctionDef):
+                    break
+        r.check(ok, f"_parse_simple_lines/hoist[{names}]/labels-published-before-declaration", (pm, c), f"`{stmt_key(c)}`: {why}; the hoisted declaration falls back to `int` and a String/float first assigned in the body is then stored in an int")
+    if n_sites < 4:
+        raise AnalysisError(f"only {n_sites} hoisting call sites found (confirmed: 4)")
+
+
+def _blocks(node):
+    out = []
+    for f_ in ("body", "orelse", "finalbody"):
+        b = getattr(node, f_, None)
+        if isinstance(b, list) and b and isinstance(b[0], ast.stmt):
+            out.append(b)
+    for h in getattr(node, "handlers", []) or []:
+        out.append(h.body)
+    return out
+
+
+def _body_lists(node):
+    return [x for b in _blocks(node) for x in b] if node is not None else []
+
+
 def run(cx):
     pm = mod(PARSER)
     cx.consulted(pm)
@@ -243,6 +299,7 @@ def run(cx):
         lazy = [n for n in walk_local(lp) if isinstance(n, ast.Call) and isinstance(n.func, ast.Attribute) and n.func.attr in ("setdefault", "get") and any(isinstance(a, ast.Call) and call_name(a) == "_cpp_type" for a in n.args)]
         okw = okw and not lazy
     r.check(okw, "_promote_branch_decls/cache-overwritten-with-current-label", (pm, pb), "for every hoisted name the scope's label (parent_types[name]) and the cached C++ type must be overwritten together from the same label; a kept/conditional cache entry (setdefault) leaves the type of an earlier hoist of the same name - `float pick(float, float)` would declare `int best`")
+    rule_hoist_order(r, pm)
     # parameter specialisation
     pfn = pm.func("_parse_function")
     assigns = [n for n in walk_local(pfn) if isinstance(n, ast.Assign) and norm(n.targets[0]) == "param_type_label"]
